@@ -19,7 +19,7 @@ RULE = (
     "when the exact run is and opt0*(1-1e-5) <= best_t <= opt0*(1+t)*(1+1e-5) for every optimised objective (both front minima for ENERGY|LATENCY); (any r > 0) every returned mapping is valid: "
     "the detailed evaluation does not raise InvalidMappingError and every reported memory usage is <= 1, and no returned "
     "mapping beats the exact optimum; (r alone, exact optimum using < 1-r of every memory) the optimum is still returned. Non-trivial: exact run feasible and the tolerance run returned a different mapping, "
-    "a different objective value or a different number of rows ('different' label); pairs where it returned the same mapping are counted as "
+    "a different objective value or a different number of rows ('different' label), or there was something it could have changed: the exact front has >= 2 rows, or with r > 0 the exact optimum is fuller than 1-r; pairs where it returned the same mapping are labelled "
     "'same-mapping'. Distinct = distinct (spec, setting, metrics)."
 )
 ASSUMPTIONS = [
@@ -109,7 +109,12 @@ def check(desc, col):
     if len(b.rows) < len(a.rows):
         labels.append(f"{mode}:fewer-rows")
     samp.update(exact_opt=x, tol_best=y, n_exact=len(a.rows), n_tol=len(b.rows))
-    col.case(fpr, different, labels, sample=samp)
+    # non-trivial: the tolerance run changed something, or there was something it could have changed (an exact
+    # front with >= 2 points, or with r > 0 an exact optimum fuller than 1 - r that the run may legitimately drop)
+    bites = bool(r) and any(max(a.usage[ia[o]].values(), default=0.0) > 1 - r for o in objs)
+    if bites:
+        labels.append("resource:optimum-above-threshold")
+    col.case(fpr, different or len(a.rows) >= 2 or bites, labels, sample=samp)
 
     # validity of everything returned (the property's claim for r > 0; harmless for r == 0)
     for i, u in enumerate(b.usage):
